@@ -13,7 +13,7 @@ import (
 func init() {
 	register(&propInfo{
 		ID:          "C01",
-		Explanation: "Symbolic comparison of index expressions (linear forms over loop indexes and descriptor fields, resolved through locals, helpers and the stores that fill the descriptor fields) at the places where argument and result positions are decided: (R01.1) on the server the slot of the reflective call's argument list into which parameter i is stored equals the index of the declared input whose type was used to decode it (the receiver-type table is filled with In(e1) at index e2; the value decoded with entry j is stored at slot e1[e2:=j]); (R01.2) the argument list is made with as many slots as the method has inputs, and the context is placed in exactly the input position that was tested for being a context (server: behind the receiver; client: first argument); (R01.3) on the client the i-th wire parameter is the argument at position i + (number of leading context arguments), for the same i, and the parameter list has len(args) minus that number of entries. These are the structural halves of 'calling the client function runs the handler with those arguments': a position mismatch makes reflect.Call panic or hands an argument to the wrong parameter for signatures the suite does not exercise (context plus several parameters, three or more parameters). (R01.4) no frame, parameter or result bytes live in sync.Pool memory that is put back (also by a deferred closure) while a slice of it was sent on a channel or returned; (R01.5) every handler argument is decoded into a fresh reflect.New of the declared type; (R01.6) the context input and error output of a signature are recognised by identity of the declared In/Out type with the reference type, never by Implements/AssignableTo/ConvertibleTo. (R01.7) between building the response and emitting it the result or the error member is set on every path; (R01.8) tables filled by options are made per configuration value; (R01.9) no proxy function is bound to a copy of the client.",
+		Explanation: "Symbolic comparison of index expressions (linear forms over loop indexes and descriptor fields, resolved through locals, helpers and the stores that fill the descriptor fields) at the places where argument and result positions are decided: (R01.1) on the server the slot of the reflective call's argument list into which parameter i is stored equals the index of the declared input whose type was used to decode it (the receiver-type table is filled with In(e1) at index e2; the value decoded with entry j is stored at slot e1[e2:=j]); (R01.2) the argument list is made with as many slots as the method has inputs, and the context is placed in exactly the input position that was tested for being a context (server: behind the receiver; client: first argument); (R01.3) on the client the i-th wire parameter is the argument at position i + (number of leading context arguments), for the same i, and the parameter list has len(args) minus that number of entries. These are the structural halves of 'calling the client function runs the handler with those arguments': a position mismatch makes reflect.Call panic or hands an argument to the wrong parameter for signatures the suite does not exercise (context plus several parameters, three or more parameters). (R01.4) no frame, parameter or result bytes live in sync.Pool memory that is put back (also by a deferred closure) while a slice of it was sent on a channel or returned; (R01.5) every handler argument is decoded into a fresh reflect.New of the declared type; (R01.6) the context input and error output of a signature are recognised by identity of the declared In/Out type with the reference type, never by Implements/AssignableTo/ConvertibleTo. (R01.7) between building the response and emitting it the result or the error member is set on every path; (R01.8) tables filled by options are made per configuration value; (R01.9) no proxy function is bound to a copy of the client. (R01.10) before the handler runs a request is refused only for an unknown method, an unsupported channel mode or bad params.",
 		NotDecided:  "Everything about values: JSON round trips (nil vs empty, 64-bit extremes, escaping), custom encoders/decoders, result positions computed by processFuncOut, equality of outcomes across transports and name formatters. Shapes that do not use index arithmetic (an argument list built by append) are reported as not compared, not as violations.",
 		Assumptions: []string{"reflect.Call requires argument k to be assignable to input k of the function", "descriptor fields are written only by the visible stores (closed struct types)"},
 		Run:         runC01,
